@@ -24,9 +24,9 @@ Lemma length_nil_N : length (@nil N) = 0.
 Proof. reflexivity. Qed.
 
 Ltac len_simp :=
-  repeat rewrite ?app_length, ?firstn_length, ?skipn_length, ?repeat_length, ?length_zeros, ?length_nil_N.
+  repeat rewrite ?app_length, ?firstn_length, ?skipn_length, ?repeat_length, ?length_zeros.
 Ltac len_simp_in H :=
-  repeat rewrite ?app_length, ?firstn_length, ?skipn_length, ?repeat_length, ?length_zeros, ?length_nil_N in H.
+  repeat rewrite ?app_length, ?firstn_length, ?skipn_length, ?repeat_length, ?length_zeros in H.
 
 (* two byte lists are equal: same length, same bytes (default 0 so that zero fill is transparent) *)
 Ltac list_eq :=
